@@ -1179,6 +1179,15 @@ func nameProfileErrorHandled(c *core.Ctx) {
 					}
 				})
 			}
+			if tested {
+				// third: the fallback itself can come out empty — a name made of nonspacing marks only (U+0301; a lone Thai tone mark) has
+				// every rune skipped — and the empty instance name ends Start() all the same: the result of the fallback is tested for
+				// emptiness before it is handed back
+				if f.Signature.Results().Len() == 1 && f.Signature.Results().At(0).Type().String() == "string" {
+					c.Check(emptyFallbackGuarded(f, call), "name-fallback-not-empty@"+fname(f), posOf(i), "the result of the fallback is tested for emptiness and replaced",
+						"where the profile failed, the fallback's result is handed back without a test for emptiness: a name made of nonspacing marks only is reduced to the empty string — the DNS-SD responder refuses the empty instance name and Start() exits the process")
+				}
+			}
 			c.Check(tested, "name-profile-error-handled@"+fname(f), posOf(i), "the error of the text profile decides what is returned",
 				"the error of the PRECIS profile is dropped (or tested and the failed call's empty result returned all the same): for a name with a character the profile rejects (a typographic apostrophe, a dash, an emoji) the function hands back the empty string — the DNS-SD responder refuses the empty instance name and Start() exits the process, the accessory is never advertised")
 		})
@@ -1308,4 +1317,61 @@ func polarityEverywhere(c *core.Ctx, prop string) {
 		errorTestPolarity(c, f, nil)
 	}
 	c.Count("polarity_functions", n)
+}
+
+// emptyFallbackGuarded: some branch of f tests a string that is not the parameter (and not the direct result of the profile's first call
+// alone) for emptiness — `p == ""`, `len(p) == 0`, `b.Len() == 0` — and a non-empty constant reaches a return of f.
+func emptyFallbackGuarded(f *ssa.Function, profileCall *ssa.Call) bool {
+	tests := false
+	core.Instrs(f, func(j ssa.Instruction) {
+		bo, ok := j.(*ssa.BinOp)
+		if !ok {
+			return
+		}
+		switch bo.Op {
+		case token.EQL, token.NEQ, token.GTR, token.LEQ, token.LSS, token.GEQ:
+		default:
+			return
+		}
+		for _, pr := range [][2]ssa.Value{{bo.X, bo.Y}, {bo.Y, bo.X}} {
+			if k, isK := core.ConstString(pr[1]); isK && k == "" && pr[0].Type().String() == "string" {
+				if _, isParam := pr[0].(*ssa.Parameter); !isParam {
+					tests = true
+				}
+			}
+			if z, isK := core.ConstInt(pr[1]); isK && z == 0 {
+				if cl, isCall := pr[0].(*ssa.Call); isCall {
+					if bi, isB := cl.Call.Value.(*ssa.Builtin); isB && bi.Name() == "len" {
+						if _, isParam := cl.Call.Args[0].(*ssa.Parameter); !isParam && cl.Call.Args[0].Type().String() == "string" {
+							// len(s) of the per-rune result inside the loop is the rune's own test, not the whole result's: the tested string
+							// must not be the result of a profile call
+							if e, isE := cl.Call.Args[0].(*ssa.Extract); isE {
+								if c2, isC := e.Tuple.(*ssa.Call); isC && c2 != profileCall && c2.Call.StaticCallee() != nil && c2.Call.StaticCallee().Pkg != nil && c2.Call.StaticCallee().Pkg.Pkg.Path() == "golang.org/x/text/secure/precis" {
+									continue
+								}
+							}
+							tests = true
+						}
+					}
+					if g := cl.Call.StaticCallee(); g != nil && g.Name() == "Len" {
+						tests = true
+					}
+				}
+			}
+		}
+	})
+	if !tests {
+		return false
+	}
+	nonEmptyConst := false
+	core.Instrs(f, func(j ssa.Instruction) {
+		if r, ok := j.(*ssa.Return); ok && len(r.Results) == 1 {
+			for _, sv := range core.Sources(r.Results[0]) {
+				if k, isK := core.ConstString(sv); isK && k != "" {
+					nonEmptyConst = true
+				}
+			}
+		}
+	})
+	return nonEmptyConst
 }
